@@ -132,13 +132,21 @@ class FlakyRegistry(posix.Registry):
             FlakyRegistry.refresher_errors += 1
             raise OSError(f'injected transient storage error while listing {what}')
 
+    order_rng: typing.Optional[random.Random] = None  # a storage lists its entries in whatever order it likes
+
+    def _any_order(self, items):
+        items = sorted(items)
+        if self.order_rng is not None:
+            self.order_rng.shuffle(items)
+        return items
+
     def releases(self, project):
         self._maybe_fail('releases')
-        return super().releases(project)
+        return self._any_order(super().releases(project))
 
     def generations(self, project, release):
         self._maybe_fail('generations')
-        return super().generations(project, release)
+        return self._any_order(super().generations(project, release))
 
 
 def simulate_latest(cfg: dict, root: str, schedule: typing.Optional[list] = None) -> dict:
@@ -165,6 +173,7 @@ def simulate_latest(cfg: dict, root: str, schedule: typing.Optional[list] = None
     # the serving side sees the registries through its own directory objects (one per registry, like a gateway)
     FlakyRegistry.refresher_errors = 0
     FlakyRegistry.refresher_delay = 0.0
+    FlakyRegistry.order_rng = random.Random(cfg['seed'] ^ 0x0D)
     served = [asset.Directory(FlakyRegistry(root / f'reg{i}', staging=root / f'stage{i}')) for i in range(cfg['nreg'])]
     history: list[dict] = []
     trainer_task = {}
